@@ -23,8 +23,6 @@ var unprovedCodec = map[string]string{
 	"abi.EncryptedTextCommentNFTPayload": "snake", "abi.GetNftApiInfoResult": "snake", "abi.GetTelemintTokenNameResult": "snake",
 	"abi.TextCommentJettonPayload": "snake", "abi.TextCommentMsgBody": "snake", "abi.TextCommentNFTPayload": "snake",
 	"abi.TorrentInfo": "snake",
-	"tlb.VmCellSlice": "vmCellSlice", "tlb.VmStackValue": "vmCellSlice",
-	"wallet.PayloadV1toV4": "payloadV1toV4", "wallet.MessageV3": "payloadV1toV4", "wallet.MessageV4": "payloadV1toV4",
 	"wallet.W5Actions": "w5Actions", "wallet.MessageV5Beta": "w5Actions",
 }
 
